@@ -19,7 +19,7 @@ EVIDENCE = {
               "convex and non-convex, every cyclic start and both directions; seeded subset in quick), the query point is a free real homogeneous vector (so points on edges, at "
               "vertices, on edge extensions, level with a vertex and at infinity are all inside each query); 3-D: lattice polygons embedded by concrete affine maps with the point free.  "
               "triangles (2-D): all 8 coordinates free reals.",
-    "outside": "polygons with symbolic vertices (measured: undecided by z3/cvc5, DESIGN 3), polygons off the enumerated family (no extrapolation), > 5 vertices, self-intersecting cycles, rounding",
+    "outside": "(inside since round 3: triangles whose vertices carry free weights of either sign; translated 3-D polygons) polygons with symbolic vertices (measured: undecided by z3/cvc5, DESIGN 3), polygons off the enumerated family (no extrapolation), > 5 vertices, self-intersecting cycles, rounding",
     "assumptions": ["ProjectiveTensor.__eq__/is_multiple: lemma proved in C20"],
 }
 
@@ -191,7 +191,7 @@ def oracle_polygon(ctx, poly, p):
     return ctx.any(on_edge + [par])
 
 
-def mk_polygons(polys, dim=2, embed=None):
+def mk_polygons(polys, dim=2, embed=None, moved=None):
     def case(ctx):
         from geometer import Polygon, Point
         p = vec(ctx, "p", 3)
@@ -210,6 +210,11 @@ def mk_polygons(polys, dim=2, embed=None):
                 # affine embedding into 3-space: X = o + x u + y v  (concrete o, u, v); the query point is mapped the same way plus an offset t along the normal
                 o, u, v, nrm = embed
                 P = Polygon(*[Point(*[float(o[i] + x * u[i] + y * v[i]) for i in range(3)]) for x, y in poly])
+                if moved is not None:
+                    # the polygon asked is the image of P under a translation: its supporting plane has to move with it
+                    from geometer import translation
+                    P = translation(*[float(x) for x in moved]) * P
+                    o = tuple(o[i] + moved[i] for i in range(3))
                 t = ctx.real("t")
                 q3 = [pe[0] * u[i] + pe[1] * v[i] + pe[2] * o[i] + t * nrm[i] for i in range(3)] + [pe[2]]
                 q = Point(mk_array(ctx, q3))
@@ -240,6 +245,23 @@ def case_triangle(ctx):
     d3 = R.det([E(a), E(b), E(p)])
     exp = ctx.any([ctx.all([ctx.le(0, d1), ctx.le(0, d2), ctx.le(0, d3)]), ctx.all([ctx.le(d1, 0), ctx.le(d2, 0), ctx.le(d3, 0)])])
     ctx.require("triangle:contains-iff-closed-triangle", ctx.iff(got, exp))
+
+
+def case_triangle_signed_weights(ctx):
+    """the same with every vertex given by an arbitrary non-zero multiple (either sign) of (x, y, 1): mixed-sign representatives arise from meet()"""
+    from geometer import Triangle, Point
+    V = [[ctx.real(f"{k}x"), ctx.real(f"{k}y"), 1] for k in "abc"]
+    W = [ctx.real(f"w{k}") for k in "abc"]
+    for w in W:
+        ctx.assume(ctx.neg(ctx.is_zero(w)))
+    ctx.assume(ctx.neg(ctx.is_zero(R.det(V))))
+    p = [ctx.real("px"), ctx.real("py"), 1]
+    T = Triangle(*[Point(mk_array(ctx, [w * x for x in v])) for v, w in zip(V, W)])
+    got = ctx.truth(T.contains(Point(mk_array(ctx, p))))
+    a, b, c = V
+    d1, d2, d3 = R.det([p, b, c]), R.det([a, p, c]), R.det([a, b, p])
+    exp = ctx.any([ctx.all([ctx.le(0, d1), ctx.le(0, d2), ctx.le(0, d3)]), ctx.all([ctx.le(d1, 0), ctx.le(d2, 0), ctx.le(d3, 0)])])
+    ctx.require("triangle[signed weights]:contains-iff-closed-triangle", ctx.iff(got, exp))
 
 
 def case_triangle3d(ctx):
@@ -278,6 +300,7 @@ def cases(tier, seed):
         for mode in ("on", "off", "ray", "inf"):
             add(f"segment_{mode}_{dim}d", mk_segment(dim, mode), tiers=Q)
     add("triangle_2d", case_triangle, tiers=Q)
+    add("triangle_2d_signed_weights", case_triangle_signed_weights, tiers=Q, max_paths=3000)
     add("triangle_3d", case_triangle3d, tiers=Q)
     npoly = 48 if tier == "quick" else 200
     polys = lattice_polygons(seed, npoly, sizes=(3, 4, 4, 5), B=2)
@@ -292,4 +315,6 @@ def cases(tier, seed):
     ok3 = [p for p in polys if _orient(p[0], p[1], p[2]) != 0]
     for j, emb in enumerate(embeds):
         add(f"polygons3d_embed{j}", mk_polygons(ok3[:3] if tier == "quick" else ok3[:12], dim=3, embed=emb), tiers=Q, max_paths=600)
+    add("polygons3d_embed0_translated", mk_polygons(ok3[:2], dim=3, embed=embeds[0], moved=(0, 0, 2)), tiers=Q, max_paths=600)
+    add("polygons3d_embed1_translated", mk_polygons(ok3[:2], dim=3, embed=embeds[1], moved=(1, -2, 3)), tiers=Q, max_paths=600)
     return cs
